@@ -23,6 +23,7 @@ RULE = ("case = one expression tree in one statement context (assign, IF with an
 ASSUMPTIONS = [
     "BASIC09 operator precedence NOT,unary- > ^ > */ > +- > relational > AND > OR/XOR, left associative (reference manual)",
     "BASIC09 REAL->INTEGER conversion rounds; INT truncates toward zero; FIX rounds; LAND/LOR/LNOT work on 16-bit integers",
+    "BASIC09 arithmetic on two INTEGER operands is integer arithmetic (/ truncates); LEN, ASC, PEEK, LAND/LOR/LNOT yield INTEGER",
     "Color BASIC precedence table of the Extended Color BASIC ROM (FRMEVL); relational yields -1/0; AND/OR/NOT on 16-bit integers",
     "values stay in a domain where 40-bit and 64-bit floating point agree (multiples of 1/64, |x|<=1e6); other valuations are discarded",
     "RND/PEEK are uninterpreted but identical on both sides",
@@ -245,7 +246,7 @@ def run_case(case):
         obs["counters"]["b09_runs"] = 1
     taints = X.taint(e)
     ftaints = fn_taints(e)
-    if not taints and not ftaints:
+    if not taints and not ftaints and not X.has_int_division(e):
         obs["counters"]["cases_untainted"] = 1
     if st in ("held", "dropped", "refused"):
         if st == "held" and case.get("sample"):
@@ -259,21 +260,30 @@ def run_case(case):
     kind = st if st != "violation" else "value"
     detail = {"context": ctx, "expression": render_expr(e), "kind": kind, "diffs": r.get("diffs", [])[:4],
               "b09_error": r.get("b09_error"), "source": r.get("source", "")[:1500], "emitted": r.get("emitted", "")[-1500:]}
+    # counterfactual diagnosis: re-run the same meaning with the known triggers removed -- explicit parentheses
+    # around every prefix group (T1) and/or the IF form without ELSE (T2); the case is attributed to a known
+    # mechanism only if removing its trigger makes the case pass
+    ifelse_trigger = ctx in ("if_else", "if_s") and bool(X.all_fns(e) & CONVERTIBLE)
+    ctx2 = {"if_else": "if_noelse", "if_s": "if_s_noelse"}.get(ctx, ctx)
+    attempts = []
     if taints:
-        # counterfactual diagnosis: the same meaning with explicit parentheses around every prefix group
-        r2 = evaluate(ctx, X.dehazard(e))
+        attempts.append(("C01/group/" + sorted(taints)[0], ctx, X.dehazard(e)))
+    if ifelse_trigger:
+        attempts.append(("C01/ifelse/preassignments-dropped", ctx2, e))
+    if taints and ifelse_trigger:
+        attempts.append(("C01/ifelse/preassignments-dropped", ctx2, X.dehazard(e)))
+    if X.has_int_division(e):
+        # T3: BASIC09 divides two INTEGER-typed operands (LEN, ASC, LAND/LOR/LNOT results) as integers
+        base = list(attempts)
+        attempts.append(("C01/value/INTEGER-DIVISION", ctx, X.realify_divisions(e)))
+        for sig0, c0, e0 in base:
+            attempts.append((sig0, c0, X.realify_divisions(e0)))
+    for sig, c2, e2 in attempts:
+        r2 = evaluate(c2, e2)
         if r2["status"] in ("held", "dropped", "refused"):
-            mech = sorted(taints)[0]
-            obs["viols"].append({"sig": "C01/group/" + mech, "detail": detail})
+            obs["viols"].append({"sig": sig, "detail": detail})
             return obs
-        detail["dehazarded_status"] = r2["status"]
-    if ctx in ("if_else", "if_s") and (X.all_fns(e) & CONVERTIBLE):
-        # counterfactual: the same condition in the IF form without ELSE
-        r3 = evaluate({"if_else": "if_noelse", "if_s": "if_s_noelse"}[ctx], e)
-        if r3["status"] in ("held", "dropped", "refused"):
-            obs["viols"].append({"sig": "C01/ifelse/preassignments-dropped", "detail": detail})
-            return obs
-        detail["noelse_status"] = r3["status"]
+        detail.setdefault("counterfactuals", []).append([sig, r2["status"]])
     if ftaints and kind in ("value",):
         obs["viols"].append({"sig": "C01/value/" + sorted(ftaints)[0], "detail": detail})
         return obs
